@@ -1852,6 +1852,10 @@ where
                 }
             }
             Message::Subscribe(subscribe) => {
+                // An inverted time range is never valid.
+                if subscribe.since > subscribe.until {
+                    return Err(session::Error::Misbehavior);
+                }
                 // Filter announcements by interest.
                 match self
                     .db
